@@ -973,6 +973,9 @@ func (e *Exec) execRangeMap(st *State, s *ast.RangeStmt, label string, mt *types
 	e.Ctx.Assume(head.PC, Implies(hasNext, And(Not(Eq(m, Int(0))), Select(dom(head), k), Not(Select(vis, k)))))
 	if mapStable {
 		e.Ctx.Assume(head.PC, And(Implies(hasNext, Lt(iter, len0)), Implies(Not(hasNext), Eq(iter, len0))))
+		// the visited keys are keys of the (unchanged) map; when the iteration ends they are all of them
+		e.Ctx.Assume(head.PC, Term{fmt.Sprintf("(forall ((%s %s)) (! (=> (select %s %s) (select %s %s)) :pattern ((select %s %s))))", kv, ks, vis.S, kv, dom(head).S, kv, vis.S, kv), SBool})
+		e.Ctx.Assume(head.PC, Implies(Not(hasNext), Eq(vis, dom(head))))
 		e.Assumed["range over a map that the loop body does not modify runs exactly len(map) iterations"] = true
 	}
 	f := e.fr()
